@@ -271,7 +271,9 @@ def check_framing(chk, rng):
         chk.sample({"frames": len(frames), "chunk_lengths": [len(c) for c in chunks][:12], "delivered": len(got), "kind": kind}, limit=4)
     # encode correspondence (byte-exact)
     enc_bad = None
-    objs = [0, 1, -1, "a", "", [], [1, [2, "x"]], {"k": 1}, 2.5, "q" * 255, "q" * 256, "q" * 70000]
+    from klongpy.core import KGChar, KGSym
+    objs = [0, 1, -1, "a", KGChar("a"), KGSym("a"), "a", 1.0, 1, True, "", [], [1, [2, "x"]], {"k": 1}, 2.5, "q" * 255, "q" * 256, "q" * 70000,
+            KGChar("q"), "q", KGSym("q")]
     reqs, want = [], []
     for o in objs:
         i = uuid.UUID(int=rng.getrandbits(128))
@@ -367,7 +369,7 @@ setup = ['sq::{x*x}', 'add::{x+y}', 'tri::{x,y,z}', 'nil::{42}', 'd:::{[1 2] ["a
 on_loop(server, sloops, '.srv(%%d)' %% port)
 for s in setup:
     on_loop(server, sloops, s); twin(s)
-for nm0 in ['a', 'b', 'c']:
+for nm0 in ['va', 'vb', 'vc']:
     on_loop(server, sloops, nm0 + '::0'); twin(nm0 + '::0')
 def connect():
     on_loop(client, cloops, 'cli::.cli(%%d)' %% port)
@@ -376,8 +378,10 @@ connect()
 reconnects = 0
 
 lits = ['1', '-7', '2.5', '1.0e100', '0ca', '"hello"', '""', ':sym', '[]', '[1 2 3]', '[1 2.5]', '[[1 2] [3 4]]', '[1 [2 "x" [0cz :q]]]',
-        '["a" "bc"]', ':{[1 2] ["k" [1 2]]}', '1%%0', '[1 "a" :s]', ':{["u" 1]}', '[[]]', '[1.5 [2 3]]']
-names = ['a', 'b', 'c']
+        '["a" "bc"]', ':{[1 2] ["k" [1 2]]}', '1%%0', '[1 "a" :s]', ':{["u" 1]}', '[[]]', '[1.5 [2 3]]',
+        # values that compare/hash equal in Python but are of different Klong kinds (caches keyed by value must not conflate them)
+        '"a"', ':a', '1.0', '[1.0 2.0 3.0]', '0cs', '"s"', ':s', '0', '0.0', '"sym"', '"1"', '0c1']
+names = ['va', 'vb', 'vc']
 results = []
 def record(form, text, remote, local):
     global reconnects
@@ -407,10 +411,26 @@ def safe(f):
     except Exception as e:
         return ("EXC", type(e).__name__)
 
+# deterministic prelude: values that are ==/hash-equal in Python but of different Klong kinds, through every
+# form and in both orders (a transport-level cache keyed by value would conflate them)
+kind_groups = [['0ca', '"a"', ':a'], ['1', '1.0'], ['0', '0.0'], ['"s"', '0cs', ':s'], ['[1 2 3]', '[1.0 2.0 3.0]'], ['"1"', '0c1']]
+plan = []
+for g in kind_groups:
+    for order in (g, g[::-1]):
+        for f_ in ('exprlit', 'fncall1', 'proxy', 'dset'):
+            for l_ in order:
+                plan.append((f_, l_))
 for opi in range(n_ops):
-    form = rng.choice(['expr', 'expr', 'fncall1', 'fncall2', 'fncall3', 'fncall0', 'proxy', 'dset', 'dget', 'assign', 'undef', 'undeftest'])
+    plan.append((rng.choice(['expr', 'expr', 'fncall1', 'fncall2', 'fncall3', 'fncall0', 'proxy', 'dset', 'dget', 'assign', 'undef', 'undeftest']), None))
+for form, fixed_lit in plan:
     lit = rng.choice(lits); lit2 = rng.choice(lits); nm = rng.choice(names)
-    if form == 'expr':
+    if fixed_lit is not None:
+        lit = fixed_lit
+    if form == 'exprlit':
+        t = lit
+        r = safe(lambda: on_loop(client, cloops, 'cli("%%s")' %% t.replace('"', '""'))) ; l = safe(lambda: twin(t))
+        record(form, t, r, l)
+    elif form == 'expr':
         t = rng.choice(['%%s' %% lit, '#%%s' %% lit, '%%s,%%s' %% (lit, lit2), 'sq(3)', 'v', nm, 'idf(%%s)' %% lit, ':_%%s' %% lit])
         r = safe(lambda: on_loop(client, cloops, 'cli("%%s")' %% t.replace('"', '""'))) ; l = safe(lambda: twin(t))
         record(form, t, r, l)
@@ -435,7 +455,12 @@ for opi in range(n_ops):
             arr = np.empty(2, dtype=object); arr[0] = KGSym(nm); arr[1] = on_loop(client, cloops, lit)
             client['pair'] = arr
             on_loop(client, cloops, 'dcli,pair')
-        r = safe(dset_); l = safe(lambda: twin('%%s::%%s' %% (nm, lit)) and None)
+            return arr[1]
+        r = safe(dset_)
+        def lset_():
+            # the same operation locally on the server interpreter: klong[key] = value (Python API, as the server does)
+            twin[KGSym(nm)] = on_loop(client, cloops, lit)
+        l = safe(lset_)
         r2 = safe(lambda: on_loop(client, cloops, 'dcli?:%%s' %% nm)); l2 = safe(lambda: twin[KGSym(nm)])
         record(form, '%%s::%%s' %% (nm, lit), r2, l2)
     elif form == 'dget':
